@@ -67,7 +67,11 @@ def run_case(case, ctx):
         gen.make_segy(sub, D[a:b, c:d], il[a:b], xl[c:d], dt_us=case['src']['dt'], t0=case['src']['t0'], fmt=src['fmt'], headers=hsub)
         try:
             if case['route'] == 'api':
-                conv.convert_segy(src['path'], wname, rate, bs, reduce_iops=case['reduce_iops'], detection=det, window=(a, b, c, d))
+                # a third of the cases: the windowed converter object has already written another file with another setting
+                pr = (8 if rate != 8 else 4, (4, 4, -1), 'exhaustive') if int(case['id'].split(':')[1]) % 3 == 2 else None
+                if pr:
+                    strata.add('converter-reused')
+                conv.convert_segy(src['path'], wname, rate, bs, reduce_iops=case['reduce_iops'], detection=det, window=(a, b, c, d), prerun=pr)
             else:
                 conv.convert_cli_inproc(src['path'], wname, rate, conv.resolve_bs(rate, bs), reduce_iops=case['reduce_iops'], window=(a, b, c, d))
         except Exception as e:  # noqa
@@ -123,7 +127,7 @@ def run_case(case, ctx):
 def finalize(tier, cases, results, counters, strata):
     reasons = []
     need = ['win:il0:zero,xl0:zero', 'win:il0:zero,xl0:pos', 'win:il0:pos,xl0:zero', 'win:il0:pos,xl0:pos', 'reader:iops', 'reader:segyio',
-            'mode:thorough', 'mode:heuristic', 'mode:exhaustive', 'route:api', 'route:cli', 'upper:full', 'upper:inner', 'sorting:1', 'sorting:2']
+            'mode:thorough', 'mode:heuristic', 'mode:exhaustive', 'route:api', 'route:cli', 'upper:full', 'upper:inner', 'sorting:1', 'sorting:2', 'converter-reused']
     for s in need:
         if s not in strata:
             reasons.append('required stratum not hit: ' + s)
